@@ -351,7 +351,10 @@ func (l *LogoutReq) XML(rng *mrand.Rand) string { return l.Style.finish(l.Node()
 
 // ---------- AttributeQuery (SOAP) ----------
 
-type QAttr struct{ Name, NameFormat, Friendly string }
+type QAttr struct {
+	Name, NameFormat, Friendly string
+	Values                     []string // AttributeValue children (saml-core 3.3.2.3: only these values are of interest)
+}
 
 type AttrQuery struct {
 	ID, Version, IssueInstant string
@@ -386,6 +389,9 @@ func (q_ *AttrQuery) QueryNode() *Node {
 		}
 		if a.Friendly != "" {
 			e.Set("FriendlyName", a.Friendly)
+		}
+		for _, v := range a.Values {
+			e.Add(s.a("AttributeValue").SetText(v))
 		}
 		root.Add(e)
 	}
